@@ -74,7 +74,7 @@ def cases(tier, seed):
             if n == 4 and np.count_nonzero(W) > 2:
                 continue
             add({'e': n}, [{'src': 'e', 'tgt': 'e', 'W': W}], f'rec{n}')
-        for w in (1.0, -0.75):
+        for w in (1.0, -0.75, -1.0, 2.0):     # -1.0: mirror image of the unit-gain shortcut (seed C16-m9)
             add({'e': n}, [{'src': 'e', 'tgt': 'e', 'W': w}], f'scalar{n}')
     # two populations, non-square matrices in both directions
     for ne, ni in ((2, 1), (1, 2), (2, 3), (3, 2)) + (((4, 3),) if tier != 'quick' else ()):
@@ -84,6 +84,7 @@ def cases(tier, seed):
             Wb = (np.arange(ne * ni).reshape(ne, ni) * 0.25 - 0.5).tolist()
             add({'e': ne, 'i': ni}, [{'src': 'e', 'tgt': 'i', 'W': W}, {'src': 'i', 'tgt': 'e', 'W': Wb}], f'two{ne}x{ni}')
         add({'e': ne, 'i': ni}, [{'src': 'e', 'tgt': 'i', 'W': 1.5}, {'src': 'i', 'tgt': 'e', 'W': -0.5}], f'two_scalar{ne}x{ni}')
+        add({'e': ne, 'i': ni}, [{'src': 'e', 'tgt': 'i', 'W': -1.0}, {'src': 'i', 'tgt': 'e', 'W': 1.0}], f'two_scalar_unit{ne}x{ni}')
     # two connections onto the same target variable (fan-in from two populations)
     for W in list(mats(2, 2, full=False))[:12]:
         add({'e': 2, 'i': 3}, [{'src': 'e', 'tgt': 'e', 'W': W},
@@ -163,7 +164,7 @@ def cases(tier, seed):
 def describe(tier, seed):
     return {'rule': 'PopulationTemplate(n) x Connectivity circuits: n in 1..3 (4), one or two populations, every weight matrix '
                     'over {0, a, -b} for <=2x2 and all matrices with <=3 non-zeros otherwise (non-square, signed, sparse), '
-                    'scalar weights, heterogeneous per-unit parameters and initial states (all distinct), algebraic and '
+                    'scalar weights (1, -1, 2, -0.75, 1.5, -0.5), heterogeneous per-unit parameters and initial states (all distinct), algebraic and '
                     'dynamic coupling edges (with and without edge constants; also two connections whose edges share the equations but not the values), delays '
                     'with/without spread (whole and fractional multiples of the step), two parallel connections between one pair of variables, scalar entries in params; oracle: unit-by-unit reference expansion '
                     'target_i += sum_j W[i,j]*source_j (vector field at probe points + euler trajectories) and, for plain '
